@@ -28,6 +28,13 @@ pub enum Control {
     ResetStop,
     Sampling0,
     Sampling100,
+    // sampling combined with reset / stop: a sampled-out rule must neither reset nor stop
+    ResetSampling0,
+    ResetSampling100,
+    StopSampling0,
+    StopSampling100,
+    ResetStopSampling0,
+    ResetStopSampling100,
 }
 
 #[derive(Clone, Copy, Debug, Serialize, Deserialize, PartialEq, Eq, Hash, PartialOrd, Ord)]
@@ -39,12 +46,35 @@ pub enum Payload {
     LogTrue,
     LogFalse,
     Everything,
+    /// an `override` filter on one header name shared by every rule (conflicting rewrites of the same header)
+    HeaderOverrideShared,
 }
 
 pub const CONDS: [Cond; 4] = [Cond::None, Cond::Include404, Cond::Exclude404, Cond::Include404_500];
-pub const CONTROLS: [Control; 6] = [Control::Plain, Control::Reset, Control::Stop, Control::ResetStop, Control::Sampling0, Control::Sampling100];
-pub const PAYLOADS: [Payload; 7] =
-    [Payload::Redirect301, Payload::Status404, Payload::HeaderAdd, Payload::BodyAppend, Payload::LogTrue, Payload::LogFalse, Payload::Everything];
+pub const CONTROLS: [Control; 12] = [
+    Control::Plain,
+    Control::Reset,
+    Control::Stop,
+    Control::ResetStop,
+    Control::Sampling0,
+    Control::Sampling100,
+    Control::ResetSampling0,
+    Control::ResetSampling100,
+    Control::StopSampling0,
+    Control::StopSampling100,
+    Control::ResetStopSampling0,
+    Control::ResetStopSampling100,
+];
+pub const PAYLOADS: [Payload; 8] = [
+    Payload::Redirect301,
+    Payload::Status404,
+    Payload::HeaderAdd,
+    Payload::BodyAppend,
+    Payload::LogTrue,
+    Payload::LogFalse,
+    Payload::Everything,
+    Payload::HeaderOverrideShared,
+];
 
 #[derive(Clone, Copy, Debug, Serialize, Deserialize, PartialEq, Eq, Hash, PartialOrd, Ord)]
 pub struct Shape {
@@ -82,6 +112,12 @@ pub fn core_shapes() -> Vec<Shape> {
         v.push(Shape { cond, control: Control::Plain, payload: Payload::HeaderAdd });
         v.push(Shape { cond, control: Control::Plain, payload: Payload::BodyAppend });
     }
+    for cond in [Cond::None, Cond::Include404, Cond::Exclude404] {
+        v.push(Shape { cond, control: Control::Plain, payload: Payload::HeaderOverrideShared });
+    }
+    for control in [Control::ResetSampling0, Control::StopSampling0, Control::ResetSampling100, Control::ResetStopSampling0] {
+        v.push(Shape { cond: Cond::None, control, payload: Payload::Everything });
+    }
     v.push(Shape { cond: Cond::Include404_500, control: Control::Reset, payload: Payload::Status404 });
     v.push(Shape { cond: Cond::Include404, control: Control::Stop, payload: Payload::Status404 });
     v.sort();
@@ -112,15 +148,21 @@ impl Shape {
         self.cond != Cond::None
     }
     pub fn reset(&self) -> bool {
-        matches!(self.control, Control::Reset | Control::ResetStop)
+        matches!(
+            self.control,
+            Control::Reset | Control::ResetStop | Control::ResetSampling0 | Control::ResetSampling100 | Control::ResetStopSampling0 | Control::ResetStopSampling100
+        )
     }
     pub fn stop(&self) -> bool {
-        matches!(self.control, Control::Stop | Control::ResetStop)
+        matches!(
+            self.control,
+            Control::Stop | Control::ResetStop | Control::StopSampling0 | Control::StopSampling100 | Control::ResetStopSampling0 | Control::ResetStopSampling100
+        )
     }
     pub fn sampling(&self) -> Option<u32> {
         match self.control {
-            Control::Sampling0 => Some(0),
-            Control::Sampling100 => Some(100),
+            Control::Sampling0 | Control::ResetSampling0 | Control::StopSampling0 | Control::ResetStopSampling0 => Some(0),
+            Control::Sampling100 | Control::ResetSampling100 | Control::StopSampling100 | Control::ResetStopSampling100 => Some(100),
             _ => None,
         }
     }
@@ -141,6 +183,12 @@ impl Shape {
     pub fn header_add(&self, id: &str) -> Option<(String, String)> {
         match self.payload {
             Payload::HeaderAdd | Payload::Everything => Some((format!("X-{id}"), format!("v{id}"))),
+            _ => None,
+        }
+    }
+    pub fn header_override_shared(&self, id: &str) -> Option<(String, String)> {
+        match self.payload {
+            Payload::HeaderOverrideShared => Some(("X-Shared".to_string(), format!("s{id}"))),
             _ => None,
         }
     }
@@ -171,12 +219,18 @@ impl Shape {
             "target": self.target(id),
             "status_code": self.status(),
             "rank": rank,
-            "body_filters": self.body_append(id).map(|c| json!([{"action": "append_text", "content": c, "id": null, "target_hash": null}])),
-            "header_filters": self.header_add(id).map(|(n, v)| json!([{"action": "add", "header": n, "value": v, "id": null, "target_hash": null}])),
+            "body_filters": self.body_append(id).map(|c| json!([{"action": "append_text", "content": c, "id": format!("bu-{id}"), "target_hash": format!("bth-{id}")}])),
+            "header_filters": match (self.header_add(id), self.header_override_shared(id)) {
+                (Some((n, v)), _) => json!([{"action": "add", "header": n, "value": v, "id": format!("hu-{id}"), "target_hash": format!("hth-{id}")}]),
+                (_, Some((n, v))) => json!([{"action": "override", "header": n, "value": v, "id": null, "target_hash": null}]),
+                _ => Value::Null,
+            },
             "log_override": self.log(),
             "reset": if self.reset() { json!(true) } else { Value::Null },
             "stop": if self.stop() { json!(true) } else { Value::Null },
-            "examples": null, "redirect_unit_id": null, "configuration_log_unit_id": null, "configuration_reset_unit_id": null, "target_hash": null,
+            "examples": null,
+            // unit ids are present so that the unit-trace paths run; they must not change any observable effect
+            "redirect_unit_id": format!("ru-{id}"), "configuration_log_unit_id": format!("lu-{id}"), "configuration_reset_unit_id": format!("cu-{id}"), "target_hash": format!("th-{id}"),
         })
     }
 
@@ -218,7 +272,7 @@ pub struct Obs {
 }
 
 pub fn base_headers() -> Vec<(String, String)> {
-    vec![("Location".into(), "orig".into()), ("A".into(), "1".into())]
+    vec![("Location".into(), "orig".into()), ("A".into(), "1".into()), ("x-shared".into(), "o".into())]
 }
 pub const PROBE_BODY: &[u8] = b"<html><body>B</body></html>";
 
@@ -247,6 +301,36 @@ pub fn observe_action(action: &Action, c: u16) -> Obs {
         .flat_map(|h| h.value.split(';').filter(|s| !s.is_empty()).map(|s| s.to_string()).collect::<Vec<_>>())
         .collect();
     Obs { status, headers, rule_ids_header, body, log_true, log_false, applied }
+}
+
+/// Same observation with a `UnitTrace` handed to every call that accepts one (what the explain / test-example
+/// analyses do); returns the observation and the rule ids the trace recorded. The trace must never change an effect.
+pub fn observe_action_traced(action: &Action, c: u16) -> (Obs, BTreeSet<String>) {
+    use redirectionio::action::UnitTrace;
+    let mut a = action.clone();
+    let mut trace = UnitTrace::default();
+    let status = a.get_status_code(c, Some(&mut trace));
+    let hdrs: Vec<Header> = base_headers().into_iter().map(|(name, value)| Header { name, value }).collect();
+    let headers: Vec<(String, String)> = a.filter_headers(hdrs.clone(), c, false, Some(&mut trace)).into_iter().map(|h| (h.name, h.value)).collect();
+    let body = match a.create_filter_body(c, &[]) {
+        None => PROBE_BODY.to_vec(),
+        Some(mut f) => {
+            let mut out = f.filter(PROBE_BODY.to_vec(), Some(&mut trace));
+            out.extend(f.end(Some(&mut trace)));
+            out
+        }
+    };
+    let log_true = a.should_log_request(true, c, Some(&mut trace));
+    let log_false = a.should_log_request(false, c, Some(&mut trace));
+    let applied: BTreeSet<String> = a.get_applied_rule_ids().iter().cloned().collect();
+    let with_ids = a.filter_headers(hdrs, c, true, Some(&mut trace));
+    let rule_ids_header: BTreeSet<String> = with_ids
+        .iter()
+        .filter(|h| h.name == "X-RedirectionIo-RuleIds")
+        .flat_map(|h| h.value.split(';').filter(|s| !s.is_empty()).map(|s| s.to_string()).collect::<Vec<_>>())
+        .collect();
+    let traced: BTreeSet<String> = trace.get_rule_ids_applied().iter().cloned().collect();
+    (Obs { status, headers, rule_ids_header, body, log_true, log_false, applied }, traced)
 }
 
 /// ids of the rules that contribute, in application order (rank descending, ties by id descending; after sampling / reset / stop)
@@ -326,6 +410,9 @@ pub fn reference_obs(rules: &[(String, u16, Shape)], sampling_override: Option<b
         }
         if let Some((n, v)) = r.2.header_add(&r.0) {
             headers = reference_apply("add", &n, &v, headers);
+        }
+        if let Some((n, v)) = r.2.header_override_shared(&r.0) {
+            headers = reference_apply("override", &n, &v, headers);
         }
     }
     // body
